@@ -34,7 +34,36 @@ func genericBody() func(*engine.X) {
 			return
 		}
 		sa := scalarAlphabet(g.q, 64)
-		switch x.Choose("kind", 2) {
+		switch x.Choose("kind", 3) {
+		case 2: // signed and native-integer variants
+			pe := al[x.Choose("P", len(al))]
+			for _, v := range []uint64{0, 1, 2, 3, 15, 16, 17, 1<<32 - 1, 1 << 32, 1<<32 + 1, 1<<63 - 1, 1 << 63, 1<<64 - 1} {
+				x.Case(fmt.Sprintf("generic/native/%s/%d", pe.name, v))
+				want := g.refMulCached(cache, new(big.Int).SetUint64(v), pe.ref)
+				g.same(x, "generic/native", fmt.Sprintf("algebrautils.ScalarMulNative(%s, %d)", pe.name, v), algebrautils.ScalarMulNative(pe.lib, v), want)
+			}
+			for _, v := range []int64{0, 1, -1, 2, -2, 17, -17, 1<<31 - 1, -(1 << 31), 1<<63 - 1, -(1<<63 - 1), -(1 << 63)} {
+				x.Case(fmt.Sprintf("generic/signednative/%s/%d", pe.name, v))
+				want := g.ref.ScalarMul(big.NewInt(v), pe.ref)
+				g.same(x, "generic/signednative", fmt.Sprintf("algebrautils.ScalarMulSignedNative(%s, %d)", pe.name, v), algebrautils.ScalarMulSignedNative(pe.lib, v), want)
+			}
+			for _, s := range sa {
+				for _, sign := range []int64{1, -1} {
+					v := new(big.Int).Mul(s.v, big.NewInt(sign))
+					x.Case(fmt.Sprintf("generic/signed/%s/%s/%d", pe.name, s.name, sign))
+					zi, err := num.Z().FromBig(v)
+					if err != nil {
+						x.Failf("generic/int", "num.Z().FromBig(%v): %v", v, err)
+						continue
+					}
+					want := g.refMulCached(cache, s.v, pe.ref)
+					if sign < 0 {
+						want = g.ref.Neg(want)
+					}
+					g.same(x, "generic/signed", fmt.Sprintf("algebrautils.ScalarMulSigned(%s, %d*%s)", pe.name, sign, s.name), algebrautils.ScalarMulSigned(pe.lib, zi), want)
+				}
+			}
+			x.Observe(pe.name)
 		case 0: // ScalarMul(base, exponent) for every alphabet point and scalar, exponent as num.Nat and as raw bytes with padding
 			pe := al[x.Choose("P", len(al))]
 			for _, s := range sa {
@@ -76,7 +105,7 @@ func genericBody() func(*engine.X) {
 				ps[i] = pe.lib
 				ss[i] = beNum(ks[i].Bytes())
 				if i%3 == 1 {
-					ss[i] = beNum(ks[i].FillBytes(make([]byte, 40))) // mixed byte lengths inside one call
+					ss[i] = beNum(append(make([]byte, 9), ks[i].Bytes()...)) // mixed byte lengths inside one call
 				}
 				want = g.ref.Add(want, g.refMulCached(cache, ks[i], pe.ref))
 			}
@@ -89,6 +118,9 @@ func genericBody() func(*engine.X) {
 
 // ---------------------------------------------------------------------------------------------------------------
 // BLS12-381 pairing laws
+//
+// Unit cost (purego): one Pair is ~0.1 s (subgroup checks of both operands, Miller loop, final exponentiation), so
+// single pairings e(P_i, Q_j) of the alphabets are computed once and shared.
 
 type pairingCtx struct {
 	once sync.Once
@@ -96,9 +128,11 @@ type pairingCtx struct {
 	p1   []entry[*bls12381.PointG1, curve.FpPoint]
 	p2   []entry[*bls12381.PointG2, curve.Fp2Point]
 	q    *big.Int
+	mu   sync.Mutex
+	base map[[2]int]*bls12381.GtElement
 }
 
-var pctx pairingCtx
+var pctx = pairingCtx{base: map[[2]int]*bls12381.GtElement{}}
 
 func (c *pairingCtx) init() error {
 	c.once.Do(func() {
@@ -113,20 +147,44 @@ func (c *pairingCtx) init() error {
 			c.err = err
 			return
 		}
-		pick1 := map[string]bool{"G": true, "-G": true, "2G'=G.Double()": true, "H": true, "G+H": true}
-		for _, e := range a1 {
-			if pick1[e.name] {
-				c.p1 = append(c.p1, e)
+		// order matters: the first three of each list are the reduced alphabets of the MultiPair enumeration
+		for _, name := range []string{"G", "-G", "H", "2G'=G.Double()", "G+H"} {
+			for _, e := range a1 {
+				if e.name == name {
+					c.p1 = append(c.p1, e)
+				}
+			}
+			for _, e := range a2 {
+				if e.name == name {
+					c.p2 = append(c.p2, e)
+				}
 			}
 		}
-		for _, e := range a2 {
-			if pick1[e.name] {
-				c.p2 = append(c.p2, e)
-			}
+		if len(c.p1) != 5 || len(c.p2) != 5 {
+			c.err = fmt.Errorf("pairing alphabets incomplete")
 		}
 		c.q = curve.BLS12381G1().Q
 	})
 	return c.err
+}
+
+// e returns the shared single pairing e(p1[i], p2[j]).
+func (c *pairingCtx) e(x *engine.X, i, j int) *bls12381.GtElement {
+	c.mu.Lock()
+	v := c.base[[2]int{i, j}]
+	c.mu.Unlock()
+	if v != nil {
+		return v
+	}
+	v, err := c.p1[i].lib.Pair(c.p2[j].lib)
+	if err != nil {
+		x.Failf("pairing/err", "Pair(%s,%s) failed: %v", c.p1[i].name, c.p2[j].name, err)
+		return bls12381.NewGt().One()
+	}
+	c.mu.Lock()
+	c.base[[2]int{i, j}] = v
+	c.mu.Unlock()
+	return v
 }
 
 func gtEq(a, b *bls12381.GtElement) bool { return bytes.Equal(a.Bytes(), b.Bytes()) }
@@ -169,6 +227,29 @@ func pairingBody() func(*engine.X) {
 	mk := func(v *big.Int) *bls12381.Scalar {
 		return libcurve.ScalarFromBig[*bls12381.Scalar](sf, sf.ElementSize(), curve.BLS12381G1().Q, v)
 	}
+	// reference k*P for the exponent alphabet without a full scalar multiplication
+	refMul1 := func(k int, p curve.FpPoint) curve.FpPoint {
+		switch k {
+		case 0:
+			return a1.Ref.Identity()
+		case 1:
+			return p
+		case 2:
+			return a1.Ref.Double(p)
+		}
+		return a1.Ref.Neg(p)
+	}
+	refMul2 := func(k int, p curve.Fp2Point) curve.Fp2Point {
+		switch k {
+		case 0:
+			return a2.Ref.Identity()
+		case 1:
+			return p
+		case 2:
+			return a2.Ref.Double(p)
+		}
+		return a2.Ref.Neg(p)
+	}
 	return func(x *engine.X) {
 		c := &pctx
 		if err := c.init(); err != nil {
@@ -186,15 +267,15 @@ func pairingBody() func(*engine.X) {
 		}
 		switch x.Choose("law", 4) {
 		case 0: // e(aP, bQ) == e(P,Q)^(ab), a,b in {0,1,2,q-1}; identity operands are refused by contract
-			P := c.p1[x.Choose("P", len(c.p1))]
-			Q := c.p2[x.Choose("Q", len(c.p2))]
-			base, err := P.lib.Pair(Q.lib)
-			if err != nil {
-				x.Failf("pairing/err", "Pair(%s,%s) failed: %v", P.name, Q.name, err)
-				return
-			}
+			pi, qi := x.Choose("P", len(c.p1)), x.Choose("Q", len(c.p2))
+			P, Q := c.p1[pi], c.p2[qi]
+			base := c.e(x, pi, qi)
 			if base.IsOne() || gtEq(base, one) {
 				x.Failf("pairing/degenerate", "e(%s,%s) == 1 for non-identity subgroup points", P.name, Q.name)
+			}
+			// distinct inputs give distinct values (guards the comparisons below against a constant pairing)
+			if other := c.e(x, (pi+1)%len(c.p1), qi); gtEq(other, base) {
+				x.Failf("pairing/degenerate", "e(%s,%s) == e(%s,%s)", P.name, Q.name, c.p1[(pi+1)%len(c.p1)].name, Q.name)
 			}
 			// symmetric entry point on G2
 			if rev, err := Q.lib.Pair(P.lib); err != nil {
@@ -211,12 +292,15 @@ func pairingBody() func(*engine.X) {
 				k    int // v mod q as a small signed integer
 			}{{"0", bi(0), 0}, {"1", bi(1), 1}, {"2", bi(2), 2}, {"q-1", new(big.Int).Sub(c.q, bi(1)), -1}}
 			for _, a := range exps {
+				aP := P.lib.ScalarMul(mk(a.v))
 				for _, b := range exps {
 					x.Case(fmt.Sprintf("pairing/bilinear/%s/%s/%s/%s", P.name, Q.name, a.name, b.name))
-					aP := P.lib.ScalarMul(mk(a.v))
+					if a.k == 1 && b.k == 1 {
+						continue // the base value itself
+					}
 					bQ := Q.lib.ScalarMul(mk(b.v))
 					// operands verified against the reference so that a wrong ScalarMul cannot mask a pairing defect
-					if !a1.Ref.Equal(a1.ToRef(aP), a1.Ref.ScalarMul(a.v, P.ref)) || !a2.Ref.Equal(a2.ToRef(bQ), a2.Ref.ScalarMul(b.v, Q.ref)) {
+					if !a1.Ref.Equal(a1.ToRef(aP), refMul1(a.k, P.ref)) || !a2.Ref.Equal(a2.ToRef(bQ), refMul2(b.k, Q.ref)) {
 						x.Failf("pairing/operands", "scalar multiples used as pairing operands are wrong")
 						continue
 					}
@@ -240,36 +324,32 @@ func pairingBody() func(*engine.X) {
 			i, j := x.Choose("P1", len(c.p1)), x.Choose("P2", len(c.p1))
 			P1, P2 := c.p1[i], c.p1[j]
 			for k, Q := range c.p2 {
-				Q2 := c.p2[(k+1)%len(c.p2)]
+				k2 := (k + 1 + j%3) % len(c.p2)
+				Q2 := c.p2[k2]
 				x.Case(fmt.Sprintf("pairing/additive/%d/%d/%d", i, j, k))
-				sumRef := a1.Ref.Add(P1.ref, P2.ref)
-				if !sumRef.Inf {
-					l, err1 := P1.lib.Add(P2.lib).Pair(Q.lib)
-					e1, err2 := P1.lib.Pair(Q.lib)
-					e2, err3 := P2.lib.Pair(Q.lib)
-					if err1 != nil || err2 != nil || err3 != nil {
-						x.Failf("pairing/err", "Pair failed: %v %v %v", err1, err2, err3)
+				if !a1.Ref.Add(P1.ref, P2.ref).Inf {
+					if l, err := P1.lib.Add(P2.lib).Pair(Q.lib); err != nil {
+						x.Failf("pairing/err", "Pair failed: %v", err)
 					} else {
-						gtCheck(fmt.Sprintf("e(%s+%s,%s) vs product", P1.name, P2.name, Q.name), l, e1.Mul(e2))
+						gtCheck(fmt.Sprintf("e(%s+%s,%s) vs product", P1.name, P2.name, Q.name), l, c.e(x, i, k).Mul(c.e(x, j, k)))
 					}
 				}
-				if !a2.Ref.Add(Q.ref, Q2.ref).Inf {
-					l, err1 := P1.lib.Pair(Q.lib.Add(Q2.lib))
-					e1, err2 := P1.lib.Pair(Q.lib)
-					e2, err3 := P1.lib.Pair(Q2.lib)
-					if err1 != nil || err2 != nil || err3 != nil {
-						x.Failf("pairing/err", "Pair failed: %v %v %v", err1, err2, err3)
+				if i <= j && !a2.Ref.Add(Q.ref, Q2.ref).Inf {
+					if l, err := P1.lib.Pair(Q.lib.Add(Q2.lib)); err != nil {
+						x.Failf("pairing/err", "Pair failed: %v", err)
 					} else {
-						gtCheck(fmt.Sprintf("e(%s,%s+%s) vs product", P1.name, Q.name, Q2.name), l, e1.Mul(e2))
+						gtCheck(fmt.Sprintf("e(%s,%s+%s) vs product", P1.name, Q.name, Q2.name), l, c.e(x, i, k).Mul(c.e(x, i, k2)))
 					}
 				}
 			}
 			x.Observe(i, j)
-		case 2: // MultiPair == product of Pairs, every tuple of length 0..3 over reduced alphabets (first pair is a Choose point)
-			P := c.p1[:3]
-			Q := c.p2[:3]
-			base := len(P) * len(Q)
+		case 2: // MultiPair == product of Pairs: every tuple of length 0..3 over P' x Q' (3 x 3 pairs; length 3 in quick: 3 x 2)
 			n := x.Choose("len", 4)
+			nP, nQ := 3, 3
+			if n == 3 && !engine.Thorough() {
+				nQ = 2
+			}
+			base := nP * nQ
 			g1, g2 := bls12381.NewG1(), bls12381.NewG2()
 			if n == 0 {
 				x.Case("pairing/multipair/0")
@@ -281,14 +361,17 @@ func pairingBody() func(*engine.X) {
 				if err != nil || !r.IsOne() {
 					x.Failf("pairing/multipair/empty", "G2.MultiPair of no pairs: err=%v", err)
 				}
-				if _, err := g1.MultiPair([]*bls12381.PointG1{P[0].lib}, nil); err == nil {
+				if _, err := g1.MultiPair([]*bls12381.PointG1{c.p1[0].lib}, nil); err == nil {
 					x.Failf("pairing/multipair/mismatch", "G1.MultiPair accepted 1 and 0 points")
 				}
 				return
 			}
-			first := x.Choose("first", base)
+			head := []int{x.Choose("first", base)}
+			if n >= 2 {
+				head = append(head, x.Choose("second", base))
+			}
 			rest := 1
-			for i := 1; i < n; i++ {
+			for i := len(head); i < n; i++ {
 				rest *= base
 			}
 			for idx := 0; idx < rest; idx++ {
@@ -296,32 +379,29 @@ func pairingBody() func(*engine.X) {
 				qs := make([]*bls12381.PointG2, n)
 				want, wantInv := one, one
 				t := idx
-				ok := true
 				for i := 0; i < n; i++ {
-					cc := first
-					if i > 0 {
+					var cc int
+					if i < len(head) {
+						cc = head[i]
+					} else {
 						cc = t % base
 						t /= base
 					}
-					ps[i], qs[i] = P[cc%len(P)].lib, Q[cc/len(P)].lib
-					e, err := ps[i].Pair(qs[i])
-					if err != nil {
-						x.Failf("pairing/err", "Pair failed: %v", err)
-						ok = false
-						break
-					}
+					pi, qi := cc%nP, cc/nP
+					ps[i], qs[i] = c.p1[pi].lib, c.p2[qi].lib
+					e := c.e(x, pi, qi)
 					want = want.Mul(e)
 					wantInv = wantInv.Mul(e.Inv())
 				}
-				if !ok {
-					continue
-				}
-				x.Case(fmt.Sprintf("pairing/multipair/%d/%d/%d", n, first, idx))
-				tag := fmt.Sprintf("MultiPair length %d tuple %d/%d", n, first, idx)
+				x.Case(fmt.Sprintf("pairing/multipair/%d/%v/%d", n, head, idx))
+				tag := fmt.Sprintf("MultiPair length %d tuple %v/%d", n, head, idx)
 				if got, err := g1.MultiPair(ps, qs); err != nil {
 					x.Failf("pairing/err", "%s: %v", tag, err)
 				} else {
 					gtCheck("G1."+tag, got, want)
+				}
+				if n == 3 && !engine.Thorough() {
+					continue // the other entry points are exercised on lengths 1 and 2 (and on 3 in the thorough tier)
 				}
 				if got, err := g2.MultiPair(qs, ps); err != nil {
 					x.Failf("pairing/err", "%s: %v", tag, err)
@@ -338,7 +418,6 @@ func pairingBody() func(*engine.X) {
 				for i := range ps {
 					_ = ppe.Add(ps[i], qs[i])
 				}
-				gtCheck("PPE.Result "+tag, ppe.Result(), want)
 				for i := range ps {
 					_ = ppe.AddAndInvG1(ps[i], qs[i])
 				}
@@ -349,16 +428,17 @@ func pairingBody() func(*engine.X) {
 					x.Failf("pairing/ppe-reset", "PPE.Result after Reset is not one")
 				}
 			}
-			x.Observe(n, first)
+			x.Observe(n, head)
 		case 3: // point-level MultiPair helpers: e(P,Q1)...e(P,Qk)
-			P := c.p1[x.Choose("P", len(c.p1))]
-			for k := 1; k <= 3; k++ {
+			pi := x.Choose("P", 3)
+			P := c.p1[pi]
+			for k := 1; k <= 2; k++ {
 				qs := make([]*bls12381.PointG2, k)
 				want := one
 				for i := range qs {
-					qs[i] = c.p2[(i*2+k)%len(c.p2)].lib
-					e, _ := P.lib.Pair(qs[i])
-					want = want.Mul(e)
+					qi := (i*2 + k) % len(c.p2)
+					qs[i] = c.p2[qi].lib
+					want = want.Mul(c.e(x, pi, qi))
 				}
 				x.Case(fmt.Sprintf("pairing/pointmultipair/%s/%d", P.name, k))
 				if got, err := P.lib.MultiPair(qs...); err != nil {
@@ -372,11 +452,14 @@ func pairingBody() func(*engine.X) {
 					gtCheck(fmt.Sprintf("PointG1(%s).MultiPairAndInvertDuals of %d", P.name, k), got, want.Inv())
 				}
 			}
+			if _, err := P.lib.MultiPair(); err == nil {
+				x.Failf("pairing/pointmultipair/empty", "PointG1.MultiPair() with no argument is documented to be refused")
+			}
 			x.Observe(P.name)
 		}
 	}
 }
 
 func runPairing() {
-	engine.Explore(pairingBody(), engine.Opts{Name: "pairing/bls12381", Budget: budget(120, 900)})
+	explore(pairingBody(), engine.Opts{Name: "pairing/bls12381", Budget: budget(150, 1200)})
 }
